@@ -57,6 +57,7 @@ static Verdict judge_files(const Case &c) {
 	bool ok1 = run_cli({sc::vcal(body)}, dir, one, err); std::string err2; bool ok2 = ok1 && run_cli(files, dir, many, err2);
 	{ std::string rm = "rm -rf '" + dir + "'"; (void)!system(rm.c_str()); }
 	if (!ok1) return Verdict::inconclusive("single calendar: " + err);
+	if (!ok2 && err2.find("exited with 124") != std::string::npos) return Verdict::inconclusive("wall budget of the command line run");   // `timeout` fired: a busy machine is no verdict
 	if (!ok2) return Verdict::fail("several files: " + err2);
 	for (size_t i = 1; i < many.size(); i++) if (many[i].substr(0, many[i].find('\t')) < many[i - 1].substr(0, many[i - 1].find('\t'))) return Verdict::fail("several files: occurrence `" + many[i] + "' is delivered after `" + many[i - 1] + "'");
 	std::vector<std::string> a = one, b = many; std::sort(a.begin(), a.end()); std::sort(b.begin(), b.end());
